@@ -28,7 +28,16 @@ Inductive case :=
 | CUna (isconj : bool) (leaves : list (list (list Z))) (offs : list Z) (prog : list call) (impl : list res)
 (* any other searcher: Next-only enumeration [enum] of a fresh searcher, forward program on
    another fresh searcher: contract checking on the real trace *)
-| CContract (enum : list Z) (prog : list call) (impl : list res).
+| CContract (enum : list Z) (prog : list call) (impl : list res)
+(* an index whose internal ids are byte strings ordered bytewise (upsidedown: the internal id
+   IS the external id; ids of different lengths, ids that are prefixes of each other, ids with
+   0x00 / high bytes): [keys] lists every byte string the case talks about (document ids and
+   Advance targets that fall between them) and every number inside [c] is an index into it.
+   The table has to be strictly ascending under [bcompare] (= Go's bytes.Compare), so that the
+   order of the indexes is the order of the ids (keys_ascb_order).  Each entry is written as ONE
+   number ([key_num]: the bytes in base 256 under a leading 1, so that leading 0x00 bytes and
+   the length survive; a table of byte lists costs more to parse than the whole case to check). *)
+| CKeyed (keys : list Z) (c : case).
 
 (* the guard flag of every Boolean node is not something the harness chooses: it is the T1 fact
    XCursor.boolean_should_guard, tied to this literal by Extracted/Obligations_C08.v (ob_corr_guard);
@@ -98,7 +107,52 @@ Definition model_tree (t : stree) (prog : list call) : option (list res) :=
   let t' := with_guard should_guard t in
   run (default_fuel t') (build t') prog.
 
-Definition check (c : case) : bool :=
+(* the key table of a CKeyed case: how the harness writes one key, and how it is read back *)
+Definition key_num (bs : bytes) : Z := fold_left (fun a b => a * 256 + b) bs 1.
+Fixpoint key_bytes_fuel (fuel : nat) (z : Z) (acc : bytes) : option bytes :=
+  match fuel with
+  | O => None
+  | S f =>
+      if z <=? 0 then None
+      else if z =? 1 then Some acc
+      else key_bytes_fuel f (z / 256) (z mod 256 :: acc)
+  end.
+Definition key_bytes (z : Z) : option bytes := key_bytes_fuel 64 z [].
+Fixpoint decode_keys (ks : list Z) : option (list bytes) :=
+  match ks with
+  | [] => Some []
+  | k :: ks' =>
+      match key_bytes k, decode_keys ks' with
+      | Some b, Some bs => Some (b :: bs)
+      | _, _ => None
+      end
+  end.
+
+Fixpoint keys_ascb (ks : list bytes) : bool :=
+  match ks with
+  | a :: ((b :: _) as tl) => bltb a b && keys_ascb tl
+  | _ => true
+  end.
+Definition table_ok (tbl : list bytes) : bool := forallb valid_bytes tbl && keys_ascb tbl.
+Definition keys_ok (ks : list Z) : bool :=
+  match decode_keys ks with Some tbl => table_ok tbl | None => false end.
+
+(* every Advance target and every returned id of a case *)
+Definition call_ids (prog : list call) : list Z :=
+  flat_map (fun c => match c with Advance t => [t] | Next => [] end) prog.
+Fixpoint case_ids (c : case) : list Z :=
+  match c with
+  | CTree _ enum prog impl => enum ++ call_ids prog ++ somes impl
+  | CTfr _ _ prog impl => call_ids prog ++ somes impl
+  | CDid _ _ prog impl => call_ids prog ++ somes impl
+  | CUna _ _ _ prog impl => call_ids prog ++ somes impl
+  | CContract enum prog impl => enum ++ call_ids prog ++ somes impl
+  | CKeyed _ c' => case_ids c'
+  end.
+Definition ids_in_table (n : nat) (c : case) : bool :=
+  forallb (fun x => (0 <=? x) && (x <? Z.of_nat n)) (case_ids c).
+
+Fixpoint check (c : case) : bool :=
   match c with
   | CTree t enum prog impl =>
       leaves_ok t &&
@@ -132,15 +186,18 @@ Definition check (c : case) : bool :=
       ascendingb enum && forward enum prog &&
       check_cursor_trace prog impl &&
       trace_eqb (run_spec enum prog) impl
+  | CKeyed keys c' =>
+      keys_ok keys && ids_in_table (length keys) c' && check c'
   end.
 
 (* what the model expected, for replay files *)
 Inductive expl :=
 | ETree (denotation : list Z) (machine : option (list res)) (spec : list res) (is_forward : bool)
 | EReader (global : list Z) (machine : option (list res)) (spec : list res) (is_forward : bool)
-| EContract (spec : list res) (trace_ok : bool).
+| EContract (spec : list res) (trace_ok : bool)
+| EKeyed (table_ok : bool) (ids_ok : bool) (inner : expl).
 
-Definition explain (c : case) : expl :=
+Fixpoint explain (c : case) : expl :=
   match c with
   | CTree t _ prog _ =>
       ETree (denote t) (model_tree t prog) (run_spec (denote t) prog) (forward (denote t) prog)
@@ -155,4 +212,5 @@ Definition explain (c : case) : expl :=
       let L := tfr_global segs offs in
       EReader L (tfr_run (tfr_init true segs offs) prog) (run_spec L prog) (forward L prog)
   | CContract enum prog impl => EContract (run_spec enum prog) (check_cursor_trace prog impl)
+  | CKeyed keys c' => EKeyed (keys_ok keys) (ids_in_table (length keys) c') (explain c')
   end.
